@@ -158,6 +158,9 @@ impl Coll for Elements {
 struct Types {
     m: Module,
     ids: Vec<TypeId>,
+    /// the type of a function built before the history starts (not an item of the history); building it also
+    /// creates the type of its entry block, () -> (), which iteration shows and `find`/`add` must not hand out
+    filler: Vec<TypeId>,
 }
 impl Coll for Types {
     fn add(&mut self, v: u32) -> (usize, bool) {
@@ -169,7 +172,7 @@ impl Coll for Types {
         let id = self.ids[k];
         guarded(|| format!("{}", self.m.types.get(id).params().len())).ok()
     }
-    fn iter(&self) -> Vec<String> { self.m.types.iter().map(|t| format!("{}", t.params().len())).collect() }
+    fn iter(&self) -> Vec<String> { self.m.types.iter().filter(|t| !self.filler.contains(&t.id())).map(|t| format!("{}", t.params().len())).collect() }
     fn rename(&mut self, k: usize, name: &str) -> bool { self.m.types.get_mut(self.ids[k]).name = Some(name.to_string()); true }
     fn find(&self, v: u32) -> Option<Option<usize>> {
         let params = vec![ValType::I32; v as usize];
@@ -428,14 +431,23 @@ impl Coll for Customs {
     fn issued(&self) -> usize { self.ids.len() }
 }
 
-fn make(coll: &str) -> Option<Box<dyn Coll>> {
+fn make(coll: &str, filler: bool) -> Option<Box<dyn Coll>> {
     Some(match coll {
         "globals" => Box::new(Globals { m: Module::default(), ids: vec![] }),
         "tables" => Box::new(Tables { m: Module::default(), ids: vec![] }),
         "memories" => Box::new(Memories { m: Module::default(), ids: vec![] }),
         "data" => Box::new(Datas { m: Module::default(), ids: vec![] }),
         "elements" => Box::new(Elements { m: Module::default(), ids: vec![] }),
-        "types" => Box::new(Types { m: Module::default(), ids: vec![] }),
+        "types" => {
+            let mut m = Module::default();
+            let filler = if filler {
+                let _ = FunctionBuilder::new(&mut m.types, &[ValType::I64; 9], &[]);
+                m.types.iter().map(|t| t.id()).collect()
+            } else {
+                vec![]
+            };
+            Box::new(Types { m, ids: vec![], filler })
+        }
         "imports" => Box::new(Imports { m: Module::default(), ids: vec![], vals: vec![], alive: vec![] }),
         "funcs" => Box::new(Funcs { m: Module::default(), ids: vec![] }),
         "locals" => Box::new(Locals { m: Module::default(), ids: vec![] }),
@@ -464,7 +476,7 @@ pub fn run(input: &[u8], rec: &mut Rec) {
             return;
         }
     };
-    let mut c = match make(coll) {
+    let mut c = match make(coll, syms.len() % 2 == 0) {
         Some(c) => c,
         None => {
             rec.push_s("harness_error", "unknown collection");
